@@ -135,7 +135,8 @@ def diff_terms(pairs):
 
 
 class MemFile:
-    """in-memory stand-in for a binary file opened by the code under analysis"""
+    """in-memory stand-in for a binary file opened by the code under analysis.
+    content = flat list of byte items: ints for concrete bytes, terms for symbolic ones"""
 
     def __init__(self, store, name, mode):
         self.store, self.name, self.mode = store, name, mode
@@ -148,13 +149,37 @@ class MemFile:
         self.store[self.name].append(data)
         return len(data)
 
+    def _flat(self):
+        key = '__flat__' + self.name
+        cache = self.store.get(key)
+        nw = len(self.store[self.name])
+        if cache is None or cache[0] != nw:
+            flat = []
+            for w in self.store[self.name]:
+                if isinstance(w, npx.SymBytes):
+                    flat.extend(w.items)
+                else:
+                    flat.extend(bytes(w))
+            self.store[key] = (nw, flat)
+        return self.store[key][1]
+
     def read(self, n=-1):
-        buf = self.store[self.name]
+        flat = self._flat()
+        if isinstance(n, Sym):
+            n = core.concretize_int(n)
         if n is None or n < 0:
-            n = len(buf) - self.pos
-        out = buf[self.pos:self.pos + n]
+            n = len(flat) - self.pos
+        out = flat[self.pos:self.pos + n]
         self.pos += len(out)
-        return out
+        if all(isinstance(b, int) for b in out):
+            return bytes(out)
+        return npx.SymBytes(out)
+
+    def seek(self, pos, whence=0):
+        self.pos = pos if whence == 0 else (self.pos + pos if whence == 1 else len(self._flat()) + pos)
+
+    def tell(self):
+        return self.pos
 
     def readlines(self):
         raise core.HarnessError("readlines on MemFile")
@@ -173,6 +198,13 @@ class MemFile:
 class MemFS:
     """dictionary file system; real files (e.g. the header template) are passed through"""
 
+    def names(self):
+        return sorted(k for k in self.files if not k.startswith('__flat__'))
+
+    def glob(self, pattern):
+        import fnmatch
+        return [k for k in self.names() if fnmatch.fnmatch(k, pattern)]
+
     def __init__(self):
         self.files = {}
         self.opened = []
@@ -180,6 +212,10 @@ class MemFS:
     def open(self, name, mode='r', *a, **k):
         import builtins
         name = str(name)
+        if name.startswith('__flat__'):
+            raise FileNotFoundError(name)
+        if 'r' in mode and name.startswith('/mem/') and name not in self.files:
+            raise FileNotFoundError(name)
         if name in self.files or ('w' in mode and not name.endswith('header_template.txt')):
             f = MemFile(self.files, name, mode)
             self.opened.append(f)
